@@ -123,7 +123,7 @@ func (g *Gen) hllM(small bool) uint64 {
 	if g.Small {
 		return uint64(g.Pick(128, 256))
 	}
-	return uint64(g.Pick(128, 128, 256, 512, 1024, 4096))
+	return uint64(g.Pick(128, 128, 256, 512, 1024, 2048, 4096, 8192, 16384)) // every power of two: a parameter derived from the size (log2) can be wrong for some sizes only
 }
 
 func hllCountOp(g *Gen, i int) Tok {
